@@ -384,6 +384,36 @@ class Function:
             t = n
         return t
 
+    def result_term(self):
+        """The value a small function returns, as one term: `return e;`, or the decision `if (c) return a; [else] return b;`
+        / `if (c) return a; return b;` read as `c ? a : b` (canonical orientation). None for any other body."""
+        if self.body is None:
+            return None
+        ks = self.kids(self.body)
+        def ret_of(sid):
+            nd = self.nodes[sid]
+            if nd["k"] == "CompoundStmt":
+                k2 = self.kids(sid)
+                return ret_of(k2[0]) if len(k2) == 1 else None
+            if nd["k"] == "ReturnStmt" and "value" in nd:
+                return self.term(nd["value"])
+            return None
+        if len(ks) == 1:
+            n0 = self.nodes[ks[0]]
+            if n0["k"] == "ReturnStmt" and "value" in n0:
+                return self.term(n0["value"])
+            if n0["k"] == "IfStmt" and n0.get("else") is not None:
+                a, b = ret_of(n0["then"]), ret_of(n0["else"])
+                if a is not None and b is not None:
+                    return canon_cond(self.term(n0["cond"]), a, b)
+        if len(ks) == 2:
+            n0, n1 = self.nodes[ks[0]], self.nodes[ks[1]]
+            if n0["k"] == "IfStmt" and n0.get("else") is None and n1["k"] == "ReturnStmt" and "value" in n1:
+                a = ret_of(n0["then"])
+                if a is not None:
+                    return canon_cond(self.term(n0["cond"]), a, self.term(n1["value"]))
+        return None
+
     def _address_taken(self, i):
         """`&x` (through parentheses): the object is meant, not its value."""
         pm = self.parent_map()
@@ -502,16 +532,7 @@ class Function:
         if k == "ConditionalOperator":
             ks = self.kids(i)
             c, a, b = self.term(ks[0]), self.term(ks[1]), self.term(ks[2])
-            # one orientation: the condition is never an ==, >=, <= or a negation (c ? a : b is !c ? b : a)
-            if c[0] == "un" and c[1] == "!":
-                c, a, b = c[2], b, a
-            elif c[0] == "op" and c[1] in ("==", ">=", "<="):
-                if c[1] == "==" and c[2][0] == "size" and c[3] == ("const", 0):
-                    c = ("op", ">", c[2], c[3])
-                else:
-                    c = ("op", NEGATED_CMP[c[1]], c[2], c[3])
-                a, b = b, a
-            return ("cond", c, a, b)
+            return canon_cond(c, a, b)
         if k == "UnaryExprOrTypeTraitExpr":
             return ("sizeof", nd.get("arg_ct"))
         if k == "StringLiteral":
@@ -521,6 +542,19 @@ class Function:
         if k == "LambdaExpr":
             return ("lambda", nd.get("lambda_fn"))
         return ("?", k, i)
+
+
+def canon_cond(c, a, b):
+    """`c ? a : b` in one orientation: the condition is never an ==, >=, <= or a negation (c ? a : b is !c ? b : a)."""
+    if c[0] == "un" and c[1] == "!":
+        c, a, b = c[2], b, a
+    elif c[0] == "op" and c[1] in ("==", ">=", "<="):
+        if c[1] == "==" and c[2][0] == "size" and c[3] == ("const", 0):
+            c = ("op", ">", c[2], c[3])
+        else:
+            c = ("op", NEGATED_CMP[c[1]], c[2], c[3])
+        a, b = b, a
+    return ("cond", c, a, b)
 
 
 PURE_EXPRS = {}
@@ -572,7 +606,7 @@ def _subst_vars(t, m):
 
 
 def _subterms(t):
-    if isinstance(t, tuple):
+    if isinstance(t, tuple) and t:
         yield t
         for x in t:
             if isinstance(x, tuple):
@@ -985,6 +1019,14 @@ class Facts:
                 if len(hc) == 1:
                     self.inlined_into["%s/%d" % (qn, nparams)] = hc[0].key
                     return hc[0]
+        if len(c) == 0 and nparams is not None and pred is None and const is None:
+            # a non-public helper whose parameter list changed (an object handed in became `this`, an out-parameter became
+            # the return value): there is still exactly one function of that name; the rules find its operands by role
+            alln = [f for f in self.by_qn.get(qn, [])]
+            if len(alln) == 1 and not (alln[0].cls and alln[0].d.get("access") == "public"):
+                self.resigned = getattr(self, "resigned", {})
+                self.resigned["%s/%d" % (qn, nparams)] = alln[0].key
+                return alln[0]
         if len(c) != 1:
             raise AnalysisBroken("anchor function %s (nparams=%s) resolved to %d definitions" % (qn, nparams, len(c)))
         return c[0]
@@ -1029,7 +1071,8 @@ class Facts:
                 "records": len(self.records), "enums": len(self.enums), "constants": len(self.vars),
                 "cfg_blocks": nblocks, "call_sites": ncalls, "tree_key": self.meta["key"],
                 "members_read_under_frozen_names": self.renames, "helpers_read_in_their_caller": self.inlined_into,
-                "helpers_read_under_frozen_names": self.renamed_functions}
+                "helpers_read_under_frozen_names": self.renamed_functions,
+                "helpers_with_changed_parameter_lists": getattr(self, "resigned", {})}
 
 
 def dump_function(fn, out=None):
